@@ -17,5 +17,8 @@ except Exception:
 for o in eng.obligations:
     if o.status != "discharged" or "-a" in sys.argv:
         print(o.status, o.kind, o.id, o.backend, o.ms, o.detail[:200]); 
-        if o.status=="refuted": print("   path:", o.path); print("   model:", o.model)
+        if o.status in ("refuted", "unknown"):
+            print("   path:", o.path)
+            if "-m" in sys.argv:
+                print("   model:", {k: v for k, v in (o.model or {}).items() if not k.startswith("ghost.") or k in ("ghost.reported", "ghost.packets")})
 print(len(eng.obligations), "obligations,", sum(o.status=="discharged" for o in eng.obligations), "discharged")
